@@ -177,7 +177,7 @@ def _body(m, cfg):
 
 def vec_or_scalar(group, name, comp):
     """Array of component `comp` ('x','y','z') of variable family `name` or None."""
-    if name in group and hasattr(group[name], "_xyz"):
+    if name in group and C.is_vec(group[name]):
         return getattr(group[name], comp)
     return None
 
@@ -190,7 +190,7 @@ def loaded_column(group, stored_name, ndim):
     for ind, ch in enumerate(stored_name):
         if ch in comps and (ind == len(stored_name) - 1 or stored_name[ind + 1] == "_") and ind > 0 and stored_name[ind - 1] == "_":
             raw = stored_name[:ind - 1] + stored_name[ind + 1:]
-            if raw in group and hasattr(group[raw], "_xyz") and getattr(group[raw], ch, None) is not None:
+            if raw in group and C.is_vec(group[raw]) and getattr(group[raw], ch, None) is not None:
                 return getattr(group[raw], ch), "vector:" + raw
     return None, None
 
@@ -265,9 +265,9 @@ def check_mesh(m, cfg, out, ds, owners=None, lmax=None, tag="", level_ok=None, v
     if want_pos:
         pos = g["position"] if "position" in g else None
         if ndim == 1:
-            posc = [g["position_x"]] if "position_x" in g else ([pos.x] if pos is not None and hasattr(pos, "_xyz") else [None])
+            posc = [g["position_x"]] if "position_x" in g else ([pos.x] if pos is not None and C.is_vec(pos) else [None])
         else:
-            posc = [getattr(pos, c) for c in "xyz"[:ndim]] if (pos is not None and hasattr(pos, "_xyz") and pos.nvec == ndim) else [None] * ndim
+            posc = [getattr(pos, c) for c in "xyz"[:ndim]] if (pos is not None and C.is_vec(pos) and pos.nvec == ndim) else [None] * ndim
         if m.require(all(p is not None for p in posc), "cell positions are present (a Vector when ndim > 1)", key=f"geometry-missing:{tag}"):
             f_p = [U.factor_dim(p.unit) for p in posc]
             m.require(all(tuple(d) == (1, 0, 0, 0, 0) for _, d in f_p), "positions are lengths", key=f"unit:{tag}:length")
@@ -282,7 +282,7 @@ def check_mesh(m, cfg, out, ds, owners=None, lmax=None, tag="", level_ok=None, v
         # partial position components stay scalars under their own names
         for k, c in enumerate("xyz"[:ndim]):
             nme = f"position_{c}"
-            if nme in geometry and m.require(nme in g and not hasattr(g[nme], "_xyz"), f"{nme} stays a scalar when a component is missing",
+            if nme in geometry and m.require(nme in g and not C.is_vec(g[nme]), f"{nme} stays a scalar when a component is missing",
                                              key=f"geometry-missing:{tag}"):
                 fp = U.factor_dim(g[nme].unit)[0]
                 col = m.vals(g[nme]._array)
@@ -312,7 +312,7 @@ def check_mesh(m, cfg, out, ds, owners=None, lmax=None, tag="", level_ok=None, v
                            ("grav_acceleration", [f"grav_acceleration_{c}" for c in "xyz"[:ndim]])):
             stored = [v for names_ in out.kinds.values() for v in names_]
             if all(nm in stored for nm in names):
-                m.require(fam in g and hasattr(g[fam], "_xyz") and g[fam].nvec == ndim and not any(nm in g for nm in names),
+                m.require(fam in g and C.is_vec(g[fam]) and g[fam].nvec == ndim and not any(nm in g for nm in names),
                           f"components of {fam} are assembled into one Vector", key=f"vector:{tag}:{fam}")
     if variables is None:
         fs = []
@@ -326,7 +326,7 @@ def check_mesh(m, cfg, out, ds, owners=None, lmax=None, tag="", level_ok=None, v
                     want = m.t(o.vals["hydro"]["density"][ind]) * uf["density"][0] * ((0.5 ** o.level) * boxlen * unit_l) ** 3
                     fs.append(m.close(m.t(ms[r]) * fm, want, tol=1e-3))
         if "B_x_left" in out.kinds.get("hydro", []) and ndim > 1:
-            if m.require("B_field" in g and hasattr(g["B_field"], "_xyz"), "derived variable B_field is present", key=f"derived:{tag}:B_field"):
+            if m.require("B_field" in g and C.is_vec(g["B_field"]), "derived variable B_field is present", key=f"derived:{tag}:B_field"):
                 for c in "xyz"[:ndim]:
                     bf = getattr(g["B_field"], c)
                     fb = U.factor_dim(bf.unit)[0]
